@@ -1,5 +1,5 @@
 -------------------------- MODULE MC_WriterChain --------------------------
 EXTENDS WriterChain
-AllPlans == {"small", "drop", "big", "chunked", "unused", "raw2f", "raw2n", "raw1l"}
-QuickPlans == {"small", "big", "unused", "raw2f", "raw2n", "drop"}
+AllPlans == {"small", "drop", "big", "chunked", "unused", "raw2f", "raw2n", "raw1l", "rawf1"}
+QuickPlans == {"small", "big", "unused", "raw2f", "raw2n", "drop", "rawf1"}
 =============================================================================
